@@ -112,6 +112,17 @@ def rescale_primitives(rep, F, rule='R-SCALE', exact=True, scale_only=True):
                 n += 1
                 v, msgs, paths = scale.analyse(fn, 'scale-only', scale_params=(2,))
                 record(rep, rule, fn, v, msgs, paths, key_suffix=':carries-requested-scale', extra=' (every path returns exactly the requested scale with a consistent integer dimension)')
+    # the rounding rescale and its default-mode entry point: label only (loops are widened, the digits are not decided)
+    for pat in (r'^BigDecimal::with_scale_round$', r'^BigDecimal::round$'):
+        if not scale_only:
+            break
+        for fn in F.real_fns():
+            if fn.is_closure or not re.search(pat, fn.name):
+                continue
+            rep.add_functions([fn.name])
+            n += 1
+            v, msgs, paths = scale.analyse(fn, 'scale-only', scale_params=(2,))
+            record(rep, rule, fn, v, msgs, paths, key_suffix=':carries-requested-scale', extra=' (every path returns a decimal labelled with exactly the requested scale)')
     return n
 
 
